@@ -80,6 +80,7 @@ class EngineBase:
         self.contract = contract
         self.registry = registry
         self.mode = Mode(contract.mode)
+        self.mode.neg_inf_sentinel = bool(getattr(contract, 'neg_inf_sentinel', False))
         self.obligations = []
         self.consts = dict(consts or {})
         self.loop_nodes = None
